@@ -5,6 +5,7 @@ mod builders;
 mod c12;
 mod c13;
 mod c15;
+mod c19p;
 mod campaign;
 mod convert;
 mod crash;
@@ -137,11 +138,40 @@ fn worker(prop: &str, tier: &str, tag: &str) -> i32 {
         total.evaluations += cells as u64;
         zst_failure = first;
     }
+    let mut conj_info = serde_json::json!(null);
+    let mut conj_violation: Option<(String, String)> = None;
+    let mut conj_trouble: Vec<String> = Vec::new();
+    if prop == "C19" && total.failure.is_none() {
+        match probe::Toolchain::from_env("C19") {
+            Ok(tc) => {
+                let repo_src = format!("{}/src", std::env::var("GCVERIF_REPO").unwrap_or_else(|_| "/repo".into()));
+                let rep = c19p::run(&tc, threads(), &repo_src);
+                tc.cleanup();
+                conj_info = serde_json::json!({"probes": rep.probes, "rejected_by_rustc": rep.rejected, "compiled_and_yielded_no_pointer": rep.compiled_none, "public_safe_functions_returning_a_Gc": rep.scanned, "classified": c19p::CLASSIFIED.len()});
+                total.evaluations += rep.probes as u64;
+                conj_violation = rep.violation;
+                conj_trouble = rep.trouble;
+            }
+            Err(e) => conj_trouble.push(e),
+        }
+    }
     let wall = t0.elapsed().as_secs_f64();
 
     // 3. report
     let mut code = 0;
     let mut violations = 0;
+    for t in &conj_trouble {
+        eprintln!("gcverif: conjuring probes cannot decide: {t}");
+        code = 2;
+    }
+    if let Some((m, prog)) = &conj_violation {
+        violations = 1;
+        let path = format!("{root}/failures/{prop}-conjured.json");
+        let _ = std::fs::write(&path, serde_json::to_string_pretty(&serde_json::json!({"property": prop, "kind": "probe-must-not-compile", "message": m, "program": prog})).unwrap());
+        println!("violated oracle: C19 conjuring — {m}");
+        println!("VIOLATION property={prop} replay={path}");
+        code = 1;
+    }
     if let Some(m) = &zst_failure {
         violations = 1;
         let path = format!("{root}/failures/{prop}-zstcache.json");
@@ -180,6 +210,7 @@ fn worker(prop: &str, tier: &str, tag: &str) -> i32 {
         "classes": total.cov.to_json(),
         "violations_of_other_properties_seen_and_ignored_here": total.other_prop,
         "zst_cache_table": zst_info,
+        "conjuring_probes": conj_info,
     });
     if samples.is_empty() {
         cov["samples"] = serde_json::json!([{"note": "no non-trivial case generated"}]);
